@@ -588,6 +588,9 @@ def gen_mode_case(rng) -> dict:
     elif r < 0.93:
         cfg = {"package": "ca", "core_package": "shared.core",
                "others": [{"package": "cb", "codes": rng.sample(["403", "404", "410", "502"], rng.randint(1, 2))}]}
+    elif r < 0.96:  # core nested two packages inside the client, another client of that core generated in between (F09h)
+        cfg = {"package": "c1", "core_package": "c1.x.core", "others": [],
+               "between": [{"package": "c2", "codes": rng.sample(["403", "404", "410", "502"], rng.randint(1, 2))}] if rng.random() < 0.7 else []}
     else:  # a core three levels deep is shared too (and keeps a registry) since the fix of F11a
         cfg = {"package": "ca", "core_package": "libs.common.core",
                "others": [{"package": "cb", "codes": rng.sample(["403", "404", "410", "502"], rng.randint(1, 2))}] if rng.random() < 0.6 else []}
@@ -611,10 +614,28 @@ def run_mode_case(inp: dict) -> dict:
             found = [[k, v] for k, v in json.loads(regp.read_text()).items()]
         text = json.dumps(inp["spec"])
         r1 = run_generator(text, root, package=inp["package"], core_package=inp["core_package"], force=True)
+        for o in inp.get("between", []):   # another client of the same core, generated after this client and before its rerun
+            ospec = {"openapi": "3.0.3", "info": {"title": "O", "version": "1"},
+                     "paths": {"/o": {"get": {"operationId": "other_op",
+                                              "responses": {"200": {"description": "ok"},
+                                                            **{c: {"description": "e"} for c in o["codes"]}}}}}}
+            r0 = run_generator(json.dumps(ospec), root, package=o["package"], core_package=inp["core_package"])
+            assert r0.ok, r0.error
+        if inp.get("between") and regp.exists():
+            found = [[k, v] for k, v in json.loads(regp.read_text()).items()]
         before = snapshot(root, with_mtime=True)
         r2 = run_generator(text, root, package=inp["package"], core_package=inp["core_package"], force=False)
         after = snapshot(root, with_mtime=True)
-        reported = differing_from_log(r2.log, root)
+        out_rel = inp["package"].replace(".", "/")
+        core_rel = (inp["core_package"] or inp["package"] + ".core").replace(".", "/")
+        reported = []
+        for x in differing_from_log(r2.log, root):   # one-sided files are printed relative to the compared directory
+            if x.startswith(("only-old:", "only-new:")):
+                rel = x.split(":", 1)[1]
+                base = out_rel if (x.startswith("only-new:") or (root / out_rel / rel).exists()) else core_rel
+                x = f"{base}/{rel}"
+            reported.append(x)
+        reported = sorted(set(reported))
         obs = {"first_ok": r1.ok, "rerun_ok": r2.ok, "rerun_error": norm_err(r2.error, root), "reported": reported,
                "untouched": before == after}
         fails = []
@@ -628,7 +649,8 @@ def run_mode_case(inp: dict) -> dict:
             if before != after:
                 ch = sorted(k for k in set(before) | set(after) if before.get(k) != after.get(k))
                 fails.append(f"rerun touched files: {ch[:6]}")
-        return {"input": {"kind": "modes", **inp}, "abs": mode_abstract(inp["spec"], inp["package"], inp["core_package"], found),
+        return {"input": {"kind": "modes", **inp}, "abs": {**mode_abstract(inp["spec"], inp["package"], inp["core_package"], found),
+                                                          "touched": bool(inp.get("between"))},
                 "obs": obs, "oracle_fail": fails}
     finally:
         shutil.rmtree(root, ignore_errors=True)
@@ -646,7 +668,7 @@ def c_mode_case(c: dict) -> str:
          f"g_codes := {clist(str(x) for x in a['codes'])} |}}")
     found = clist(cpair(cstr(k), clist(str(x) for x in v)) for k, v in a["found"])
     rep = clist(c_path(r.split("/")) for r in o["reported"])
-    return f"(({g}, {found}), ({cbool(o['rerun_ok'])}, {rep}))"
+    return f"(({g}, {found}, {cbool(a.get('touched', False))}), ({cbool(o['rerun_ok'])}, {rep}))"
 
 
 # =====================================================================================================
@@ -1156,9 +1178,9 @@ def main(chk: Check, replay: dict | None = None) -> int:
     mode_inputs = [{k: v for k, v in c["input"].items() if k != "kind"} for c in corpus if c["input"].get("kind") == "modes"]
     mode_inputs += [gen_mode_case(rng) for _ in range(60 if chk.thorough else 14)]
     mode_cases = [run_mode_case(i) for i in mode_inputs]
-    codes = chk.coq_eval(imports, "(gen_input * registry) * (bool * list path)", [c_mode_case(c) for c in mode_cases],
+    codes = chk.coq_eval(imports, "(gen_input * registry * bool) * (bool * list path)", [c_mode_case(c) for c in mode_cases],
                          "run_modes", tag="modes") if chk.model_ok else None
-    chk.decide(mode_cases, codes, {},
+    chk.decide(mode_cases, codes, {1: "F09h"},
                "modes: Diff.tree_force/tree_temp/rerun_differing = (rerun outcome, files reported by the real non-force run)")
     dist["modes"] = {"cases": len(mode_cases), "rerun_failed": sum(1 for c in mode_cases if not c["obs"]["rerun_ok"]),
                      "core_given": sum(1 for c in mode_cases if c["abs"]["core_given"]),
